@@ -862,7 +862,11 @@ QS_DECL = ("/-- `isinstance(frame, C)` for the frame classes of quic_frame.py (a
            f"def QS.connectionId (f : {OUT}) : Bytes := match f.frame with | .parsed (.newConnectionId _ _ _ _ cid _) => cid | _ => []\n"
            "/-- `isinstance(quic_packet, ShortQuicPacket)` / `LongQuicPacket` (the two classes are disjoint) -/\n"
            f"def QS.isShort (p : {PKT}) : Bool := decide (p.htype = .short)\n"
-           f"def QS.isLong (p : {PKT}) : Bool := decide (p.htype = .long)\n")
+           f"def QS.isLong (p : {PKT}) : Bool := decide (p.htype = .long)\n"
+           "/-- `quic_packet.supported_version` (a VersionNegotiationPacket; stored in the pseudo frame, never read: not modelled) -/\n"
+           f"def QS.supportedVersion (p : {PKT}) : Bytes := []\n"
+           "/-- `PseudoVersionNegotiationFrame(payload=…, src_packet=quic_packet)` -/\n"
+           f"def QS.vnFrame (payload : Bytes) (p : {PKT}) : {OUT} := ⟨.versionNeg, p.ts, p.isServer, p.ptype⟩\n")
 GROUPS["QuicSess2"] = dict(imports=["TLX.PyRt", "TLX.Quic.Session"], decls=[QS_DECL], options=["set_option linter.unusedVariables false"])
 QS_PLACES = [("self.server_cids", "serverCids", "Set Bytes", "s"), ("self.client_cids", "clientCids", "Set Bytes", "s"),
              ("self.output_buffer", "out", f"List {OUT}", "s"),
@@ -933,6 +937,23 @@ qs_spec("decrypt_packet", [("quic_packet", PKT)],
         state_calls={"self.check_key_epoch": dict(kind="extshared", lean="check_key_epoch", args=["Option Nat", "Bool"], ret="None"),
                      "self.get_full_packet_number": dict(kind="extshared", lean="get_full_packet_number", args=[PKT], ret="Bytes"),
                      "self.set_largest_packet_number": dict(kind="extshared", lean="set_largest_packet_number", args=[PKT, "Bytes"], ret="None"),
+                     "self.handle_frame": dict(kind="shared", lean="QS.handle_frame", exts=["handle_crypto_frame"], args=[OUT], ret="None")})
+# handle_quic_packet: the loop over the dissected packets (decrypt_packet; the Version Negotiation pseudo frame; the reset after a
+# Retry; learning both CIDs from an Initial). `self.decryptors = {}` / `self.keys = {}` / the three suite attributes are mapped to
+# the model's fields by `stmt_updates`; `scid` / `supported_version` exist on long-header packet objects only (`attr_guards`).
+QS_ALL_EXT = ["handle_crypto_frame", "check_key_epoch", "get_full_packet_number", "set_largest_packet_number", "dec_decrypt", "parse_frames"]
+QS_EXT["tls_init"] = ("tls_init", "σ")
+QS_RETRY = {"self.tls_session = QuicTlsSession()": "tls := tls_init",
+            "self.decryptors = {}": "decInitial := none, decHandshake := none, decEarly := none, decApp := none",
+            "self.keys: dict[str, bytes] = {}": "keysInitial := false, keysHs := false, keysApp := false, keysEarly := false",
+            "self.hash_fun = None": "suite := none", "self.cipher = None": "", "self.key_length = None": "", "self.alpn = None": "",
+            "self.packet_buffer_quic = []": ""}
+qs_spec("handle_quic_packet", [], QS_ALL_EXT + ["tls_init"],
+        places=QS_PLACES + [("self.packet_buffer_quic", "pkts", f"List {PKT}", "r")], stmt_updates=QS_RETRY,
+        attr_funcs={**QS_ATTRS, (PKT, "supported_version"): ("QS.supportedVersion", "Bytes")},
+        attr_guards={(PKT, "scid"): "QS.isLong", (PKT, "supported_version"): "QS.isLong"},
+        calls={"PseudoVersionNegotiationFrame": dict(lean="QS.vnFrame", params=["payload", "src_packet"], args=["Bytes", PKT], ret=OUT)},
+        state_calls={"self.decrypt_packet": dict(kind="shared", lean="QS.decrypt_packet", exts=QS_ALL_EXT, args=[PKT], ret="None"),
                      "self.handle_frame": dict(kind="shared", lean="QS.handle_frame", exts=["handle_crypto_frame"], args=[OUT], ret="None")})
 
 THEOREMS = _uniq(theorem_of(s) for s in SPECS)
